@@ -93,6 +93,14 @@ static thread_local run_t t_run;
 static bool g_explicit_calls = false;
 static int g_token = 0;
 
+// C11c directed program `stall=1`: every participant that is not unwinding from a throwing call
+// sleeps at the point `bulk.dec` (before the log lock is taken), i.e. between whatever finish()
+// did before the decrement and `--tasks_remaining`; the thrower does not sleep, so it records its
+// exception and decrements while the others sit in that window (a perturbation only: no verdict
+// depends on the delay)
+static bool g_stall = false;
+static thread_local bool t_threw = false;
+
 static void lock_log()
 {
     while (g_lock.test_and_set(std::memory_order_acquire)) {}
@@ -131,6 +139,9 @@ static void sink(int phase, char const* site, void const* o, std::uint64_t a, st
     // only the hooks of the index queue and of bulk itself (a task does not suspend or migrate
     // between one of their points and the following post; other modules' hooks may)
     if (std::strncmp(site, "ciq.", 4) != 0 && std::strncmp(site, "bulk.", 5) != 0) return;
+    if (phase == 2 && std::strcmp(site, "bulk.task") == 0) t_threw = false;
+    if (phase == 0 && g_stall && !t_held && !t_threw && std::strcmp(site, "bulk.dec") == 0)
+        std::this_thread::sleep_for(std::chrono::milliseconds(2));
     if (phase == 0)
     {
         if (!t_held)
@@ -350,6 +361,7 @@ static void run_live(case_t const& c, ex::thread_pool_scheduler sched)
     int const token = 4711 + int(c.geti("seed", 1) % 1000);
     for (auto t : thr) note("live.throws", nullptr, t, 0);
     // C11c: the predecessor's value pack (token) and whether every call is logged individually
+    g_stall = c.geti("stall", 0) != 0;
     g_token = token;
     g_explicit_calls = nn >= 0 && nn <= 256;
     note("live.tok", nullptr, token, g_explicit_calls ? 1 : 0);
@@ -395,6 +407,7 @@ static void run_live(case_t const& c, ex::thread_pool_scheduler sched)
                         if (t_run.count == 0) t_run.first = ii;
                         ++t_run.count;
                     }
+                    if (t) t_threw = true;
                     if (t) throw idx_error{ii};
                 }) |
             ex::then([&](int v) {
